@@ -203,7 +203,13 @@ package v2
 //@   requires[count_fits] len(fw.buffer.entries) <= 65535
 //@   requires[entries_encodable] forall i in 0..len(fw.buffer.entries): len(fw.buffer.entries[i].Key) <= 65535 && len(fw.buffer.entries[i].Data) <= 4294967295
 //@   requires[size_nonneg] fw.buffer.currentSize >= 0
-//@   modifies fw.buffer.entries, fw.buffer.currentSize, fw.blockCount, fw.entryCount, all(fw.header)
+//@   requires[positioned_at_end] fpos(fw.file) == flen(fw.file) && flen(fw.file) >= 64 + fw.header.NameLength
+//@   modifies fw.buffer.entries, fw.buffer.currentSize, fw.blockCount, fw.entryCount, all(fw.header), file(fw.file)
+//@   ensures[append_only] forall j in 64..old(flen(fw.file)): fbyte(fw.file, j) == old(fbyte(fw.file, j))
+//@   ensures[never_shrinks] flen(fw.file) >= old(flen(fw.file))
+//@   ensures[positioned_at_end_after_success] err == nil ==> fpos(fw.file) == flen(fw.file)
+//@   ensures[positioned_at_end_after_failure] err != nil ==> fpos(fw.file) == flen(fw.file)
+//@   ensures[failed_flush_keeps_entries] err != nil ==> len(fw.buffer.entries) == old(len(fw.buffer.entries))
 //@   ensures[buffer_emptied_even_on_write_error] len(fw.buffer.entries) == 0 && (old(len(fw.buffer.entries)) > 0 ==> fw.buffer.currentSize == 0)
 //@   ensures[flushed] err == nil ==> len(fw.buffer.entries) == 0 && (old(len(fw.buffer.entries)) > 0 ==> fw.buffer.currentSize == 0)
 
@@ -224,3 +230,62 @@ package v2
 //@   ensures[upsert_copies_bytes] (entry.Operation == OpInsert || entry.Operation == OpUpdate) ==> forall i in 0..len(entry.Data): index[entry.Key][i] == entry.Data[i]
 //@   ensures[copy_is_private] (entry.Operation == OpInsert || entry.Operation == OpUpdate) && len(entry.Data) > 0 ==> fresh(index[entry.Key])
 //@   ensures[other_operations_ignored] entry.Operation != OpDelete && entry.Operation != OpInsert && entry.Operation != OpUpdate ==> mapsame(index)
+
+// ---------------------------------------------------------------------------------------
+// File-level contracts over the ghost file model (see /verif/govc/trusted/files.spec).
+
+// Durability barrier (property C02): a successful Sync leaves every byte of the file durable.
+//@ func (*FileWriter).Sync(fw) (err)
+//@   property C02
+//@   overflow: assumed
+//@   modifies *
+//@   csensures[everything_durable] err == nil ==> fsynced(fw.file) == flen(fw.file)
+
+// createNewFile (property C29): a new file is the 64-byte header, whose NameLength field is the
+// length of the swamp name, followed by exactly the bytes of the name.
+//@ func (*FileWriter).createNewFile(fw) (err)
+//@   property C29 C01
+//@   nopanic
+//@   lossless
+//@   modifies *
+//@   ensures[name_too_long_rejected] len(old(fw.swampName)) > 65535 ==> err != nil
+//@   ensures[layout] err == nil ==> flen(fw.file) == 64 + len(old(fw.swampName)) && fpos(fw.file) == flen(fw.file)
+//@   ensures[name_length_field] err == nil ==> fbyte(fw.file, 44) + 256 * fbyte(fw.file, 45) == len(old(fw.swampName))
+//@   ensures[version3] err == nil ==> fbyte(fw.file, 4) + 256 * fbyte(fw.file, 5) == 3
+//@   ensures[name_bytes] err == nil ==> forall i in 0..len(old(fw.swampName)): fbyte(fw.file, 64 + i) == old(fw.swampName)[i]
+
+// NewFileReader (properties C29, C04): for a V3 file the reported swamp name is exactly the
+// NameLength bytes that follow the header; nothing is allocated beyond the size of the file.
+//@ func NewFileReader(filePath) (fr, err)
+//@   property C29 C04
+//@   nopanic
+//@   modifies *
+//@   ensures[v3_name_is_the_stored_bytes] err == nil && fr.header.Version == 3 ==> len(fr.swampName) == fr.header.NameLength && forall i in 0..len(fr.swampName): fr.swampName[i] == fbyte(fr.file, 64 + i)
+//@   ensures[v3_name_length_field] err == nil && fr.header.Version == 3 ==> fr.header.NameLength == fbyte(fr.file, 44) + 256 * fbyte(fr.file, 45)
+//@   ensures[positioned_at_data] err == nil ==> fpos(fr.file) == 64 + ite(fr.header.Version == 3, fr.header.NameLength, 0)
+
+// readNextBlock (properties C02, C04): a file that ends inside a block header or inside a block
+// body ends there (io.EOF: the torn tail of an interrupted append is not an error); a block is
+// returned only if its checksum matched; never allocates more than the file holds.
+//@ func (*FileReader).readNextBlock(fr) (blk, err)
+//@   property C02 C04
+//@   nopanic
+//@   requires[open] fr.file != nil
+//@   allocbound max(flen(fr.file), 16)
+//@   modifies *
+//@   ensures[torn_header_is_end_of_file] old(flen(fr.file)) - old(fpos(fr.file)) < 16 ==> err == io.EOF
+//@   ensures[torn_body_is_end_of_file] old(flen(fr.file)) - old(fpos(fr.file)) >= 16 && old(flen(fr.file)) - old(fpos(fr.file)) - 16 < le32f(fr.file, old(fpos(fr.file))) ==> err == io.EOF
+//@   ensures[accepted_block_passed_checksum] err == nil ==> blk != nil && calls("ParseBlock") == old(calls("ParseBlock")) + 1
+//@ pure le32f(f, o) = fbyte(f, o) + 256 * fbyte(f, o + 1) + 65536 * fbyte(f, o + 2) + 16777216 * fbyte(f, o + 3)
+
+// ParseBlock (property C04): a block is accepted only when the CRC of exactly the bytes that are
+// then decoded matches the header, the decompressed size matches, and every entry decodes; the
+// number of entries returned is the header's entry count.
+//@ func ParseBlock(header, compressedData) (blk, err)
+//@   property C04 C01
+//@   nopanic
+//@   requires[header] header != nil
+//@   modifies *
+//@   loop 0 invariant[progress] 0 <= offset && offset <= len(uncompressed) && len(entries) == i && i <= header.EntryCount && (!isnil(entries) ==> fresh(entries))
+//@   ensures[checksum_verified] err == nil ==> U_crc32(compressedData) == old(header.Checksum)
+//@   ensures[count] err == nil ==> blk != nil && len(blk.Entries) == old(header.EntryCount)
